@@ -179,7 +179,9 @@ class Machine(object):
         if d:
             self.stop('object_ne_model', d)
         if dprob:
-            self.stop('object_dtype', '; '.join(dprob[:3]))
+            # widths/kinds of the record array are not part of the statement (values are):
+            # recorded as an observation, never judged
+            self.probes['observation_dtype_differs_from_declared'] += 1
         if os.path.abspath(fname) != self.path(mdl.bound):
             self.stop('object_filename', 'object bound to %r, history says %r' % (fname, mdl.bound))
         # B. fresh read = model, both modes
@@ -199,7 +201,7 @@ class Machine(object):
                 if d:
                     self.stop('fresh_read_ne_model', 'raw=%s %s' % (raw, d))
                 if dprob:
-                    self.stop('fresh_read_dtype', '; '.join(dprob[:3]))
+                    self.probes['observation_dtype_differs_from_declared'] += 1
         return True
 
     def _filesig(self):
@@ -222,7 +224,10 @@ class Machine(object):
                 raised = None
             except Exception as e:
                 raised = e
-        user_w = [w for w in wlist if issubclass(w.category, self.UserWarning_)]
+        # "appending nothing only warns": any warning category will do
+        user_w = [w for w in wlist if not issubclass(w.category, (DeprecationWarning, PendingDeprecationWarning,
+                                                                   ResourceWarning))]
+        self.last_warning_categories = sorted(set(w.category.__name__ for w in wlist))
         self._last_seams = self.seam_log[nseam:]
         if expect == 'ok':
             if raised is not None:
@@ -236,11 +241,11 @@ class Machine(object):
             if raised is not None:
                 self.stop('empty_append_raised', '%s: %s' % (type(raised).__name__, raised))
             if not user_w:
-                self.stop('empty_append_did_not_warn', 'no PydlutilsUserWarning was issued')
+                self.stop('empty_append_did_not_warn', 'no warning was issued')
             return 'warned'
         if expect == 'warn-or-raise':
             if raised is None and not user_w:
-                self.stop('empty_append_did_not_warn', 'no PydlutilsUserWarning was issued')
+                self.stop('empty_append_did_not_warn', 'no warning was issued')
             return 'refused' if raised is not None else 'warned'
         raise ValueError(expect)
 
@@ -409,11 +414,17 @@ class Machine(object):
             if not rows:
                 continue
             key = t['name'].upper() if st.get('case') == 'upper' else t['name'].lower()
-            if st.get('form') == 'recarray':
-                data[key] = M.to_numpy_rows(t['columns'], rows)
+            form = st.get('form') or 'lists'
+            if form.startswith('recarray'):
+                data[key] = M.to_numpy_rows(t['columns'], rows, permute=form.endswith('permuted'))
             else:
                 d = collections.OrderedDict()
-                for ci, c in enumerate(t['columns']):
+                cols = list(enumerate(t['columns']))
+                if form.endswith('extra'):
+                    # a dict of lists with the columns in another order and an unrelated extra key
+                    cols = list(reversed(cols))
+                    d['zz_extra'] = [0]*len(rows)
+                for ci, c in cols:
                     d[c['name']] = [M.to_python(c, r[ci]) for r in rows]
                 data[key] = d
             added_rows.append((t, rows))
@@ -456,8 +467,10 @@ class Machine(object):
             p['append_after_raw_reread'] += 1
         if added_rows and st.get('case') == 'lower':
             p['append_lower_case_key'] += 1
-        if added_rows and st.get('form') == 'recarray':
+        if added_rows and (st.get('form') or '').startswith('recarray'):
             p['append_recarray'] += 1
+        if added_rows and (st.get('form') or '').endswith(('permuted', 'extra')):
+            p['append_rows_with_other_field_order'] += 1
         for t, rows in added_rows:
             if len(t['rows']) == len(rows):
                 p['append_to_zero_row_table'] += 1
